@@ -52,19 +52,21 @@ impl FileTracker {
     }
 
     /// Get the FileNumber directly after `curr`, creating it if it doesn't exist yet.
-    pub fn inc(&mut self, curr: &FileNumber) -> FileNumber {
+    ///
+    /// Returns `None` if `curr` is the largest file number there is.
+    pub fn inc(&mut self, curr: &FileNumber) -> Option<FileNumber> {
         use std::ops::Bound::{Excluded, Unbounded};
         if let Some(file) = self
             .files
             .range((Excluded(*curr.file_number), Unbounded))
             .next()
         {
-            return file.clone();
+            return Some(file.clone());
         }
-        let new_number = *curr.file_number + 1u64;
+        let new_number = curr.file_number.checked_add(1u64)?;
         let new_file_number = FileNumber::new(new_number);
         self.files.insert(new_file_number.clone());
-        new_file_number
+        Some(new_file_number)
     }
 
     /// Create a FileTracker from a list of file id to track.
